@@ -466,8 +466,14 @@ package tree
 //@   call (*tree.Node).delNeighbor [the_single_node_and_its_parent_forget_each_other] (a0 == current && a1 == previous) || (a0 == previous && a1 == current)
 //@   call (*tree.Edge).SetLength [child_branch_gets_the_sum_of_the_two_lengths_when_both_are_present] a1 == a0.length + length && a0.length != -1.0 && length != -1.0
 //@   call (*tree.Tree).unconnectNode [the_single_node_is_emptied] a1 == current
+//@   store Edge.support [the_child_branch_takes_the_larger_of_the_two_supports] newval == max(oldval, support) && target == child.br[idx]
+//@   store Edge.left [the_removed_branch_loses_its_upper_end] target == e ==> newval == nil
+//@   store Edge.left [another_branch_is_only_ever_re_attached_from_the_single_node_to_its_parent] target != e ==> newval == previous && oldval == current
+//@   store Edge.right [only_the_removed_branch_loses_its_lower_end] target == e && newval == nil
 //@   loop 1
 //@     invariant [snapshot_is_the_adjacency_at_entry] len(tmpnodes) == old(len(current.neigh)) && len(tmpedges) == old(len(current.br)) && (forall k int :: {tmpnodes[k]} {tmpedges[k]} 0 <= k && k < len(tmpnodes) ==> tmpnodes[k] == old(current.neigh[k]) && tmpedges[k] == old(current.br[k]))
+//@   loop 2
+//@     invariant [the_removed_branch_stays_detached] e.left == nil && e.right == nil && current != nil
 
 // resolveRecur (property C07): a node is left with at most three neighbours; a detached neighbour is re-attached
 // under the new node with the length, support and p-value of the branch it hung on; the branch joining the new
